@@ -30,7 +30,7 @@ EXTENDS PredAxioms, Naturals, Sequences, FiniteSets, SequencesExt, TLC, Json
 \* (a parametrised hint used as a predicate - kind "exacttype" - selects exactly the locations of that very type)
 ClassMatch(c, t) == IF ClassKind[c] \in {"abstract", "protocol"} THEN c \in Supers[Origin[t]]
                     ELSE IF ClassKind[c] = "exacttype" THEN t = c
-                    ELSE Origin[t] = c
+                    ELSE Origin[t] = ClassOf[c]
 \* "If you pass a string, it will be interpreted as a regex and the provider will be applied to all fields with id matched
 \*  by the regex ... if you pass the field_id directly, it will match an equal string."
 StrMatch(s, f) == IF IsIdentifier[s] THEN s = f ELSE f \in FullMatches[s]
@@ -76,7 +76,7 @@ Attr(s) == [e |-> "attr", s |-> s]
 GArg(n, x) == [e |-> "garg", pos |-> n, x |-> x]
 Chain(es) == [p |-> "chain", es |-> es]
 
-PredClasses == IF Rich THEN Classes ELSE {"A", "B", "Abs", "Impl", "Proto", "G", "T0"}
+PredClasses == IF Rich THEN Classes ELSE {"A", "B", "Abs", "Impl", "Proto", "G", "T0", "TupleAlias"}
 LocTypes == IF Rich THEN DOMAIN Origin ELSE {"A", "B", "Impl2", "PImpl", "Gint", "Abs", "T0", "Tis"}
 Atoms == {Cls(c) : c \in PredClasses} \cup {Str(s) : s \in Strings} \cup {AnyP}
 ElemPool == {Item(Cls("A")), Item(Cls("Abs")), Item(Str("n")), Item(Str("n|m")), Attr("n"), Attr("nm"),
